@@ -17,7 +17,8 @@ Definition fw_of (s : aio) : fw :=
 Inductive tkind :=
 | TStartOk (has_cancel has_deadline : bool) | TStartStopped | TStartAborted | TStartTimeout
 | TFinish (rv : N) | TAbort (rv : N) | TStop | TClose | TFini
-| TExpire (rv : N) | TExpireDone | TSleepCancel (rv : N) | TReset | TSleepSetup.
+| TExpire (rv : N) | TExpireDone | TSleepCancel (rv : N) | TReset | TSleepSetup
+| TExpireMark | TExpireSkip.
 
 (* None = a record of this kind cannot follow this state *)
 Definition fw_step (k : tkind) (f : fw) : option fw :=
@@ -45,12 +46,25 @@ Definition fw_step (k : tkind) (f : fw) : option fw :=
       Some (mkFw true (f_abort f) false (f_expire_ok f) (f_sleep f) false false (f_result f))
   | TClose =>
       Some (mkFw true (f_abort f) (f_expiring f) (f_expire_ok f) (f_sleep f) false false (f_result f))
+  | TExpireMark =>
+      (* the scan: a due aio is unlinked from the expire list and held *)
+      if f_on_eq f then Some (mkFw (f_stop f) (f_abort f) true (f_expire_ok f) (f_sleep f) (f_cancel f) false (f_result f))
+      else None
+  | TExpireSkip =>
+      (* its turn in the batch: no longer due (repaired loop) *)
+      if f_expiring f then Some (mkFw (f_stop f) (f_abort f) false (f_expire_ok f) (f_sleep f) (f_cancel f) (f_on_eq f) (f_result f))
+      else None
   | TExpire rv =>
-      (* the loop has unlinked the aio and marked it expiring; rv = 0 iff a_expire_ok *)
-      if negb (N.eqb rv (if f_expire_ok f then A_OK else if f_stop f then rv else A_TIMEDOUT)) then None else
+      (* its turn in the batch: unlinked, cancel function taken; rv = ESTOPPED when the whole queue
+         is shutting down, else 0 iff a_expire_ok, else ETIMEDOUT *)
+      if negb (f_expiring f) then None else
+      let stopping := N.eqb rv A_STOPPED in
+      if negb stopping && negb (N.eqb rv (if f_expire_ok f then A_OK else A_TIMEDOUT)) then None else
+      let st := if stopping then true else f_stop f in
+      let eok := if stopping then f_expire_ok f else false in
       if f_sleep f
-      then Some (mkFw (f_stop f) (f_abort f) true false false false false rv)
-      else Some (mkFw (f_stop f) (f_abort f) true false (f_sleep f) false false (f_result f))
+      then Some (mkFw st (f_abort f) true eok false false false rv)
+      else Some (mkFw st (f_abort f) true eok (f_sleep f) false false (f_result f))
   | TExpireDone =>
       Some (mkFw (f_stop f) (f_abort f) false (f_expire_ok f) (f_sleep f) (f_cancel f) (f_on_eq f) (f_result f))
   | TSleepCancel rv =>
@@ -72,10 +86,13 @@ Proof. destruct k; reflexivity. Qed.
 Lemma fw_upd s t : fw_of (upd_threads s t) = fw_of s.
 Proof. reflexivity. Qed.
 
+Section Fixed.
+Variable fixed : bool.
+
 (* nni_aio_start: the four outcomes are the four record kinds *)
 Lemma astep_fw_start s zero dl sleep eok s' :
   a_sleep s = sleep -> (sleep = true -> a_expire_ok s = eok) ->   (* nni_sleep_aio has set them (TSleepSetup) *)
-  astep s (LStart zero dl sleep eok) = Some s' ->
+  astep fixed s (LStart zero dl sleep eok) = Some s' ->
   exists k, fw_step k (fw_of s) = Some (fw_of s') /\
     k = (if a_stop s then TStartStopped else if a_abort s then TStartAborted else if zero then TStartTimeout
          else TStartOk true (match dl with Some _ => true | None => false end)).
@@ -97,50 +114,51 @@ Proof.
         -- destruct dl; reflexivity.
 Qed.
 
-Lemma astep_fw_abort s rv s' : astep s (LAbort rv) = Some s' -> fw_step (TAbort rv) (fw_of s) = Some (fw_of s').
+Lemma astep_fw_abort s rv s' : astep fixed s (LAbort rv) = Some s' -> fw_step (TAbort rv) (fw_of s) = Some (fw_of s').
 Proof.
   cbn [astep]. destruct (rv =? 0)%N; [discriminate|]. cbn [fw_step]. simp_f.
   destruct (a_cancel s); intros H; inversion H; subst; unfold spawn; reflexivity.
 Qed.
 
-Lemma astep_fw_stop s s' : astep s LStop = Some s' -> fw_step TStop (fw_of s) = Some (fw_of s').
+Lemma astep_fw_stop s s' : astep fixed s LStop = Some s' -> fw_step TStop (fw_of s) = Some (fw_of s').
 Proof.
   cbn [astep fw_step]. simp_f. destruct (a_expiring s); [discriminate|]. intros H; inversion H; subst.
   unfold spawn. destruct (a_cancel s); reflexivity.
 Qed.
 
-Lemma astep_fw_close s s' : astep s LClose = Some s' -> fw_step TClose (fw_of s) = Some (fw_of s').
+Lemma astep_fw_close s s' : astep fixed s LClose = Some s' -> fw_step TClose (fw_of s) = Some (fw_of s').
 Proof. cbn [astep fw_step]. intros H; inversion H; subst. unfold spawn. destruct (a_cancel s); reflexivity. Qed.
 
-Lemma astep_fw_reset s s' : astep s LReset = Some s' -> fw_step TReset (fw_of s) = Some (fw_of s').
+Lemma astep_fw_reset s s' : astep fixed s LReset = Some s' -> fw_step TReset (fw_of s) = Some (fw_of s').
 Proof. cbn [astep fw_step]. destruct (outstanding s); [discriminate|]. intros H; inversion H; subst. reflexivity. Qed.
 
-(* the expire loop: TExpire, and for a sleeping aio TExpireDone in the same critical section *)
-Lemma astep_fw_expire s now s' : a_stop s = false -> astep s (LExpire now) = Some s' ->
-  let rv := if a_expire_ok s then A_OK else A_TIMEDOUT in
-  exists f1, fw_step (TExpire rv) (fw_of s) = Some f1 /\
-    (if a_sleep s || negb (a_cancel s) then fw_step TExpireDone f1 = Some (fw_of s') else f1 = fw_of s').
+(* the expire loop's scan *)
+Lemma astep_fw_expire_mark s now s' : astep fixed s (LExpire now) = Some s' ->
+  fw_step TExpireMark (fw_of s) = Some (fw_of s').
 Proof.
-  intros ST H. cbn [astep] in H. destruct (a_on_eq s); [|discriminate].
+  intros H. cbn [astep] in H. cbn [fw_step]. simp_f. destruct (a_on_eq s); [|discriminate].
   destruct (negb match a_expire s with Some e => (e <? now)%N | None => false end); [discriminate|].
-  cbn [fw_step]. simp_f. rewrite ST.
-  assert (E: negb ((if a_expire_ok s then A_OK else A_TIMEDOUT) =? (if a_expire_ok s then A_OK else A_TIMEDOUT))%N = false)
-    by (rewrite N.eqb_refl; reflexivity).
-  rewrite E. destruct (a_sleep s) eqn:SL.
-  - inversion H; subst; clear H. eexists; split; [reflexivity|]. cbn [orb]. unfold spawn. simp_f. rewrite ?ST. reflexivity.
-  - destruct (a_cancel s) eqn:C; inversion H; subst; clear H; eexists; (split; [reflexivity|]); cbn [orb negb].
-    + unfold spawn. simp_f. rewrite ?ST. reflexivity.
-    + simp_f. rewrite ?ST. reflexivity.
+  inversion H; subst; clear H. unfold spawn. reflexivity.
 Qed.
 
 (* continuations *)
-Lemma run_pact_fw s a s1 more : run_pact s a = Some (s1, more) ->
+Lemma run_pact_fw s a s1 more : run_pact fixed s a = Some (s1, more) ->
   match a with
   | PFinish rv => fw_step (TFinish rv) (fw_of s) = Some (fw_of s1)
   | PExpireDone => fw_step TExpireDone (fw_of s) = Some (fw_of s1)
   | PCallCancel rv =>
       if p_owns s && p_sleep s then a_sleep s = true -> fw_step (TSleepCancel rv) (fw_of s) = Some (fw_of s1)
       else fw_of s1 = fw_of s        (* an ordinary provider's cancel function touches no framework field *)
+  | PExpireProc now =>
+      (* the aio's turn in the batch: TExpireSkip, or TExpire and - unless a cancel function is
+         called with the lock dropped - TExpireDone in the same critical section *)
+      a_expiring s = true ->
+      let due := match a_expire s with Some e => (e <? now)%N | None => false end in
+      if fixed && negb due then fw_step TExpireSkip (fw_of s) = Some (fw_of s1)
+      else
+        let rv := if a_expire_ok s then A_OK else A_TIMEDOUT in
+        exists f1, fw_step (TExpire rv) (fw_of s) = Some f1 /\
+          (if a_sleep s || negb (a_cancel s) then fw_step TExpireDone f1 = Some (fw_of s1) else f1 = fw_of s1)
   | PDispatch | PStopWait => fw_of s1 = fw_of s
   end.
 Proof.
@@ -152,6 +170,15 @@ Proof.
       * intros SL. cbn [fw_step]. simp_f. rewrite SL. reflexivity.
       * simp_f. reflexivity.
     + inversion H; subst. reflexivity.
+  - intros EX. cbn zeta. unfold do_expire_proc in H.
+    destruct (fixed && negb match a_expire s with Some e => (e <? now)%N | None => false end).
+    + inversion H; subst; clear H. cbn [fw_step]. simp_f. rewrite EX. reflexivity.
+    + cbn [fw_step]. simp_f. rewrite EX. cbn [negb].
+      assert (E1: ((if a_expire_ok s then A_OK else A_TIMEDOUT) =? A_STOPPED)%N = false) by (destruct (a_expire_ok s); reflexivity).
+      rewrite E1, N.eqb_refl. cbn [negb andb].
+      destruct (a_sleep s) eqn:SL; [|destruct (a_cancel s) eqn:C]; inversion H; subst; clear H;
+        (eexists; split; [reflexivity|]); cbn [orb negb]; simp_f; reflexivity.
   - inversion H; subst. reflexivity.
   - destruct (t_busy s =? 0); inversion H; subst. reflexivity.
 Qed.
+End Fixed.
